@@ -197,6 +197,38 @@ def gen_spec(rng):
     return s
 
 
+def reconfigure(rng, s, runner):
+    """The user changes the configuration of an existing runner between two
+    simulate() calls: repetition limit, stop rule, skip pattern and the VALUES
+    of the unpacked parameters (same names, same grid shape)."""
+    import copy
+    s2 = copy.copy(s)
+    s2.unpacked = {}
+    for nm, old in s.unpacked.items():
+        n = len(old)
+        vals = rng.choice(np.arange(31, 60), size=n, replace=False)
+        if rng.random() < 0.5:
+            vals = [int(v) for v in vals]
+        elif rng.random() < 0.5:
+            vals = vals.astype(float) / 4.0
+        s2.unpacked[nm] = vals
+    if rng.random() < 0.3:          # sometimes only the limit changes
+        s2.unpacked = dict(s.unpacked)
+    choices = [r for r in (1, 2, 3, 5, 7, 11, 50) if r != s.rep_max]
+    s2.rep_max = int(rng.choice(choices))
+    s2.pred_kind = str(rng.choice(["always", "always", "stop-at", "count", "ratio"]))
+    s2.pred_arg = {"always": None, "stop-at": int(rng.integers(1, 9)),
+                   "count": int(rng.integers(1, 12)),
+                   "ratio": float(rng.uniform(0.2, 0.9))}[s2.pred_kind]
+    s2.salt = int(rng.integers(0, 10 ** 6))
+    runner.spec = s2
+    runner.rep_max = s2.rep_max
+    for nm, val in s2.unpacked.items():
+        runner.params.add(nm, val)
+        runner.params.set_unpack_parameter(nm)
+    return s2
+
+
 def spec_tag(s):
     return {"unpacked": {k: np.asarray(v).tolist() for k, v in s.unpacked.items()},
             "fixed": {k: repr(v) for k, v in s.fixed.items()}, "rep_max": s.rep_max,
@@ -311,7 +343,14 @@ def case_runner(ctx, rng, idx):
         return
     check_lookup(ctx, runner, s, tag, rng)
     # a second simulate() on the same object: no carry-over
-    check_run(ctx, runner, s, tag, "second", uid)
+    uid = check_run(ctx, runner, s, tag, "second", uid)
+    if uid is not None and idx % 2 == 0:
+        # ... and a third one after the user changed the configuration
+        s2 = reconfigure(rng, s, runner)
+        tag2 = {**spec_tag(s2), "before-reconfiguration": tag}
+        if check_run(ctx, runner, s2, tag2, "reconfigured", uid) is not None:
+            check_lookup(ctx, runner, s2, tag2, rng)
+            ctx.tally("reconfigured-runs")
     grid = tuple(len(v) for _, v in sorted(s.unpacked.items()))
     if len(runner.trace) >= 2:
         ctx.sig("runner", grid, s.rep_max, s.pred_kind, s.skip_kind, "all")
@@ -367,6 +406,49 @@ def case_single(ctx, rng, idx):
                    detail={**tag, "ids": list(ids), "want": want[0]["ids"],
                            "current_rep": part.current_rep})
     ctx.sig("single", len(s.unpacked), s.rep_max, s.pred_kind, s.skip_kind)
+    # another index on the same runner, after the user changed the values
+    if len(variations) < 2 or idx % 2:
+        return
+    uid0 = runner.next_uid
+    s2 = reconfigure(rng, s, runner)
+    variations2 = expected_variations(s2)
+    vsel2 = int(rng.choice([v for v in range(len(variations2)) if v != vsel]))
+    tag2 = {**spec_tag(s2), "variation": vsel2, "before-reconfiguration": tag}
+    want_trace, want, _ = model(s2, [variations2[vsel2]], uid0)
+    n0 = len(runner.trace)
+    try:
+        runner.simulate(vsel2)
+    except SkipThisOne as e:
+        ctx.ev("single-variation", False, cls="SkipThisOne-propagated", detail={**tag2, "exc": repr(e)})
+        return
+    except Exception as e:
+        import traceback
+        ctx.ev("single-variation", False, cls="simulate-raised:" + type(e).__name__,
+               detail={**tag2, "tb": traceback.format_exc(limit=-4)})
+        return
+    ctx.ev("single-variation", runner.trace[n0:] == want_trace, cls="only-that-variation:reconfigured",
+           detail={**tag2, "got": runner.trace[n0:n0 + 6], "want": want_trace[:6]})
+    ctx.ev("single-variation", runner.runned_reps == want[0]["reps"], cls="runned_reps:reconfigured",
+           detail={**tag2, "got": runner.runned_reps, "want": want[0]["reps"]})
+    files2 = sorted(os.path.join(dp, f) for dp, _, fs in os.walk(wd) for f in fs
+                    if "_unpack_" in f and os.path.join(dp, f) not in files)
+    ctx.ev("single-variation", len(files2) == 1, cls="one-partial-file:reconfigured",
+           detail={**tag2, "files": files2})
+    if len(files2) == 1:
+        okc, part = ctx.call("single-variation", SimulationResults.load_from_file,
+                             files2[0], detail=tag2)
+        if okc:
+            ids = part["ids"][-1].get_result_accumulated_values()
+            key = tuple(repr(part.params[n]) for n in sorted(s2.unpacked))
+            ctx.ev("single-variation", list(ids) == want[0]["ids"] and
+                   part.current_rep == want[0]["reps"] and
+                   part.params.unpack_index == variations2[vsel2][0] and
+                   key == variations2[vsel2][1],
+                   cls="partial-file-content:reconfigured",
+                   detail={**tag2, "ids": list(ids), "want": want[0]["ids"],
+                           "current_rep": part.current_rep, "key": key,
+                           "want_key": variations2[vsel2][1]})
+    ctx.tally("reconfigured-single-runs")
 
 
 def classify(w):
